@@ -175,6 +175,7 @@ Call ==
   /\ Req("C02", Ev.res = Expected(Ev.f, Ev.match))
   /\ Req("C06", Ev.res = Expected(Ev.f, Ev.match))
   /\ Req("C07", Ev.res = Expected(Ev.f, Ev.match))
+  /\ Req("C10", Top(Ev.f).kind = "bool" => Ev.res = Expected(Ev.f, Ev.match))
   /\ LET c == Top(Ev.f) IN
        s' = IF s.phase = "user" /\ c.kind = "jump" /\ c.n >= 0 /\ Ev.res \in {c.fake, "panic-over"}
             THEN [s EXCEPT !.cnt = Put(@, c.site, @[c.site] + 1)]
@@ -220,6 +221,9 @@ DropEnd ==
   /\ Req("C06", (~s.unwinding /\ ~s.ambient) => ExitVerdictOk)
   /\ Req("C07", (~s.unwinding /\ ~s.ambient) => ExitVerdictOk)
   /\ Req("C06", s.ambient => Ev.outcome = "ok")
+  \* the verdict is part of the critical section: the guard is still held when the verifier speaks
+  /\ Req("C06", (Ev.outcome = "panic" /\ Ev.cls = "count") => Ev.lock_at_verify = 1)
+  /\ Req("C04", (Ev.outcome = "panic" /\ Ev.cls = "count") => Ev.lock_at_verify = 1)
   /\ s' = [s EXCEPT !.phase = "idle", !.kind = "none", !.lives = @ + 1, !.live = {}, !.dirty = {},
                     !.eff = [f \in DOMAIN s.eff |-> <<>>]]
 
